@@ -74,6 +74,7 @@ class Translator:
         self.post = []
         self.var_types = {}
         self.helpers = set()
+        self.instantiate = []
         self.rec_decls = {}
         self.global_arrays = {}
         self.global_fn_deps = set()
@@ -867,7 +868,8 @@ class Translator:
             nm = self.fresh(p['name'] + '_l%d' % self.tmpn)
             if self.by_pointer(p['type']['qualType']):
                 self.abort(n, 'lambda parameter by reference')
-            out.append('%s %s = %s;' % (self.tm.tname(p['type']).rstrip(' *') if p['type']['qualType'].rstrip().endswith('&') else self.ty(p), nm, self.e(a)))
+            out.append('%s %s = %s;' % (self.tm.tname(p['type']).rstrip(' *') if p['type']['qualType'].rstrip().endswith('&') else self.ty(p), nm,
+                                        a if isinstance(a, str) else self.e(a)))
             self.locals[p['id']] = nm
         for st in stmts[:-1]:
             if st.get('kind') != 'DeclStmt':
@@ -1319,6 +1321,13 @@ class Translator:
                 self._return_default()
                 return
             self.abort(n, 'throw inside expression')
+        c0 = n
+        while c0.get('kind') in ('ExprWithCleanups',) and c0.get('inner'):
+            c0 = c0['inner'][0]
+        if c0.get('kind') == 'CallExpr':
+            ref, _ = self.callee_decl(c0['inner'][0])
+            if ref and ref.get('name') == 'transform' and self.full_decl(ref) is None:
+                return self.std_transform(c0)
         af = self._assert_cond(n)
         if af is not None:
             self.out('VERIF_ASSERT(%s, "%s/assert line %s");' % (self.e(af), self.cur.cname, self._line(n)))
@@ -1402,6 +1411,12 @@ class Translator:
                 self.abort(v, 'lambda without call operator')
             for cap in lam.get('inner', []):
                 pass
+            used = {y['referencedDecl']['id'] for y in walk(call) if y.get('kind') == 'DeclRefExpr'}
+            for y in walk(self.cur_body):
+                if y.get('kind') in ('BinaryOperator', 'CompoundAssignOperator') and (y.get('opcode') == '=' or y['kind'] == 'CompoundAssignOperator'):
+                    tgt = y['inner'][0]
+                    if tgt.get('kind') == 'DeclRefExpr' and tgt['referencedDecl']['id'] in used and tgt['referencedDecl']['id'] in self.locals:
+                        self.abort(v, 'lambda captures %s, which is assigned in the enclosing function' % tgt['referencedDecl'].get('name'))
             self.lambdas[v['id']] = call
             self.cur.dropped.append(('lambda %s inlined at its call sites' % v['name'], self._line(v)))
             return
@@ -1618,6 +1633,8 @@ class Translator:
         kind = self.tm.kinds.get(rt)
         if not kind or kind[0] not in ('vec', 'arr'):
             self.abort(n, 'range-for over ' + rt)
+        if (self.cur.cname, len(self.cur.loops)) not in self.loopc and kind[0] == 'vec' and self.map_loop(n, loopvar, body, rtxt):
+            return
         k = self.new_loop('range-for', n)
         iv = 'verif_i%d' % k
         self.out('{')
@@ -1641,6 +1658,60 @@ class Translator:
         self.ind -= 1
         self.out('}')
 
+    def map_loop(self, n, loopvar, body, rtxt):
+        """`for (auto& x : v) x = f(x);` (or x op= e) with f free of side effects: summarised as the element-wise
+        update it denotes, exactly like std::transform -- no loop contract needed.  Returns False if the loop
+        does not have this shape."""
+        if not loopvar['type']['qualType'].rstrip().endswith('&') or 'const' in loopvar['type']['qualType']:
+            return False
+        st = body
+        while st.get('kind') == 'CompoundStmt':
+            inner = [y for y in st.get('inner', []) if y]
+            if len(inner) != 1:
+                return False
+            st = inner[0]
+        while st.get('kind') == 'ExprWithCleanups' and st.get('inner'):
+            st = st['inner'][0]
+        if st.get('kind') not in ('BinaryOperator', 'CompoundAssignOperator') or (st['kind'] == 'BinaryOperator' and st.get('opcode') != '='):
+            return False
+        lhs, rhs = st['inner'][0], st['inner'][1]
+        if lhs.get('kind') != 'DeclRefExpr' or lhs['referencedDecl']['id'] != loopvar['id']:
+            return False
+        for y in walk(rhs):
+            if y.get('kind') in ('CallExpr', 'CXXMemberCallExpr', 'CXXOperatorCallExpr', 'UnaryOperator') and \
+                    (y.get('kind') != 'UnaryOperator' or y.get('opcode') in ('++', '--')):
+                return False
+        self.alias[loopvar['id']] = '(verif_old.data[verif_q])'
+        fx = self.e(st).split('=', 1)
+        # re-translate: value of the element after the statement
+        self.alias[loopvar['id']] = '(verif_old.data[verif_q])'
+        if st['kind'] == 'BinaryOperator':
+            newv = self.e(rhs)
+        else:
+            op = st['opcode'][:-1]
+            a, b = '(verif_old.data[verif_q])', self.e(rhs)
+            newv = 'RDIV(%s, %s)' % (a, b) if (op == '/' and self.tm.tname(lhs['type']) in ('real_t', 'realf_t')) else \
+                ('IDIV(%s, %s)' % (a, b) if op == '/' else ('IMOD(%s, %s)' % (a, b) if op == '%%' else '%s %s %s' % (a, op, b)))
+        del self.alias[loopvar['id']]
+        self.cur.stubs.add('element-wise summary of a side-effect-free range-for update loop')
+        self.cur.dropped.append(('range-for update loop summarised element-wise', self._line(n)))
+        self.out('{   /* for (auto& x : v) x = f(x): v[k] = f(v[k]) for every k < v.size(); nothing else changes */')
+        self.ind += 1
+        self.out('__typeof__(%s) verif_old = (%s);' % (rtxt, rtxt))
+        self.out('__typeof__(%s) verif_dn;' % rtxt)
+        self.out('__CPROVER_assume(verif_dn.size == verif_old.size);')
+        if self.instantiate:
+            for g in self.instantiate:
+                self.out('__CPROVER_assume(((%s) < verif_old.size) ? (verif_dn.data[%s] == (%s)) : (verif_dn.data[%s] == verif_old.data[%s]));' % (
+                    g, g, newv.replace('verif_q', g), g, g))
+        else:
+            self.out('__CPROVER_assume(__CPROVER_forall { unsigned long verif_q; (verif_q < verif_old.size) ==> verif_dn.data[verif_q] == (%s) });' % newv)
+            self.out('__CPROVER_assume(__CPROVER_forall { unsigned long verif_q; (verif_q >= verif_old.size) ==> verif_dn.data[verif_q] == verif_old.data[verif_q] });')
+        self.out('(%s) = verif_dn;' % rtxt)
+        self.ind -= 1
+        self.out('}')
+        return True
+
     def loop(self, k, pre, cond, inc, body, n, textual=False):
         cn = self.cur.cname
         c = self.loopc.get((cn, k))
@@ -1660,7 +1731,7 @@ class Translator:
             g = self.ghost_get((cn, 'loop %d body_begin' % k))
             if g:
                 self.out(g)
-            self.block(body)
+            self.body_or_text(body)
             g = self.ghost_get((cn, 'loop %d body_end' % k))
             if g:
                 self.out(g)
@@ -1696,7 +1767,7 @@ class Translator:
         if g:
             self.out(g)
         self.brk.append(('cloop', k))
-        self.block(body)
+        self.body_or_text(body)
         self.brk.pop()
         self.out('verif_cont_%d: ;' % k)
         if itext:
@@ -1717,6 +1788,73 @@ class Translator:
         g = self.ghost_get((cn, 'loop %d post' % k))
         if g:
             self.out(g)
+
+    def body_or_text(self, body):
+        if isinstance(body, str):
+            self.out('{')
+            self.ind += 1
+            for ln in body.split('\n'):
+                self.out(ln)
+            self.ind -= 1
+            self.out('}')
+        else:
+            self.block(body)
+
+    def std_transform(self, n):
+        """std::transform(v.begin(), v.end(), w.begin(), <local lambda>) as the element loop it denotes"""
+        inner = [x for x in n.get('inner', []) if x]
+        args = inner[1:]
+        if len(args) != 4:
+            self.abort(n, 'std::transform with %d arguments' % len(args))
+
+        def vec_of(a, which):
+            x = a
+            while x.get('kind') in ('ImplicitCastExpr', 'MaterializeTemporaryExpr', 'CXXConstructExpr', 'ExprWithCleanups') and x.get('inner'):
+                x = [y for y in x['inner'] if y][0]
+            if x.get('kind') != 'CXXMemberCallExpr' or x['inner'][0].get('name') != which:
+                self.abort(n, 'std::transform argument is not <vector>.%s()' % which)
+            return self.e(x['inner'][0]['inner'][0])
+        src, src_e, dst = vec_of(args[0], 'begin'), vec_of(args[1], 'end'), vec_of(args[2], 'begin')
+        if src != src_e:
+            self.abort(n, 'std::transform over a range of two different containers')
+        lam = args[3]
+        while lam.get('kind') in ('ImplicitCastExpr', 'MaterializeTemporaryExpr', 'CXXConstructExpr', 'ExprWithCleanups') and lam.get('inner'):
+            lam = [y for y in lam['inner'] if y][0]
+        if lam.get('kind') != 'DeclRefExpr' or lam['referencedDecl']['id'] not in self.lambdas:
+            self.abort(n, 'std::transform with a callable that is not a local lambda')
+        call = self.lambdas[lam['referencedDecl']['id']]
+        # the lambda as a pure expression of the element (single return statement)
+        params = [p for p in call.get('inner', []) if p.get('kind') == 'ParmVarDecl']
+        body = [b for b in call.get('inner', []) if b.get('kind') == 'CompoundStmt']
+        stmts = [x for x in body[0].get('inner', []) if x] if body else []
+        if len(params) != 1 or len(stmts) != 1 or stmts[0].get('kind') != 'ReturnStmt':
+            self.abort(n, 'std::transform with a lambda that is not a single return expression')
+        if any(y.get('kind') in ('CallExpr', 'CXXMemberCallExpr', 'CXXOperatorCallExpr') and self.fn_cname(self.callee_decl(y['inner'][0])[0] or {})
+               for y in walk(stmts[0])):
+            self.abort(n, 'std::transform with a lambda that calls extracted functions')
+        self.alias[params[0]['id']] = '(verif_old.data[verif_q])'
+        fx = self.e([x for x in stmts[0].get('inner', []) if x][0])
+        del self.alias[params[0]['id']]
+        self.cur.stubs.add('std::transform(v.begin(), v.end(), w.begin(), f) == element-wise application of the pure lambda f (library semantics)')
+        self.out('{   /* std::transform: w[k] = f(v[k]) for every k < v.size(); nothing else changes (no loop to unwind) */')
+        self.ind += 1
+        self.out('__typeof__(%s) verif_old = (%s);' % (src, src))
+        self.out('__typeof__(%s) verif_dn;' % dst)
+        if dst != src:
+            self.out('VERIF_OBL(verif_old.size <= (%s).size, "std::transform: destination range large enough");' % dst)
+        self.out('__CPROVER_assume(verif_dn.size == (%s).size);' % dst)
+        if self.instantiate:
+            # quantifier-free: the element-wise fact is stated at the unit's ghost indices only (a weaker, hence sound,
+            # assumption; the contracts speak about exactly those elements) -- keeps refutations decidable
+            for g in self.instantiate:
+                fg = fx.replace('verif_q', g)
+                self.out('__CPROVER_assume(((%s) < verif_old.size) ? (verif_dn.data[%s] == (%s)) : (verif_dn.data[%s] == (%s).data[%s]));' % (g, g, fg, g, dst, g))
+        else:
+            self.out('__CPROVER_assume(__CPROVER_forall { unsigned long verif_q; (verif_q < verif_old.size) ==> verif_dn.data[verif_q] == (%s) });' % fx)
+            self.out('__CPROVER_assume(__CPROVER_forall { unsigned long verif_q; (verif_q >= verif_old.size) ==> verif_dn.data[verif_q] == (%s).data[verif_q] });' % dst)
+        self.out('(%s) = verif_dn;' % dst)
+        self.ind -= 1
+        self.out('}')
 
     def s_BreakStmt(self, n, inner):
         kind, k = self.brk[-1]
@@ -1962,7 +2100,8 @@ class Translator:
         """a REGION of a large function as a function of its own: `loop K from decl:<var> to assign:<member>`.
         The region's free variables become parameters (by address if written or non-scalar); the listed
         locals declared inside the region become out-parameters."""
-        m = re.fullmatch(r'from decl:(\w+)(?:#(\d+))? to assign:(\w+)', spec.strip())
+        m = re.fullmatch(r'from (?:decl|block):(\w+)(?:#(\d+))? to assign:(\w+)', spec.strip())
+        from_block_start = spec.strip().startswith('from block:')
         if not m:
             raise ExtractError('bad slice description: ' + spec)
         v0, occ, m1 = m.group(1), int(m.group(2) or 0), m.group(3)
@@ -1989,6 +2128,8 @@ class Translator:
                 if (lhs.get('kind') == 'MemberExpr' and lhs.get('name') == m1) or \
                         (lhs.get('kind') == 'DeclRefExpr' and lhs['referencedDecl'].get('name') == m1):
                     i1 = i
+        if i0 is not None and from_block_start:
+            i0 = 0          # `from block:<v>`: the region starts with the block that declares <v>
         if i0 is None or i1 is None or i1 < i0:
             raise ExtractError('%s: slice anchors decl:%s / assign:%s not found (the code was restructured)' % (cname, v0, m1))
         region = stmts[i0:i1 + 1]
@@ -2119,11 +2260,12 @@ class Translator:
         reals = [g for g, (_, ect, _) in self.global_arrays.items() if ect == 'real_t']
         if reals:
             out.append('enum { TAB_NONE = 0, %s, TAB_END };\n#define TAB_VALID(t) ((t) > TAB_NONE && (t) < TAB_END)' % ', '.join('TAB_%s' % g for g in reals))
+            out.append('#ifdef VERIF_TABLES_UF\n/* table contents abstracted: an uninterpreted function of (table, index) -- for obligations that do not depend on them */\nreal_t __CPROVER_uninterpreted_tab_at(c_tabid, c_long);\n#define verif_tab_at(t, i) __CPROVER_uninterpreted_tab_at(t, i)\n#else')
             out.append('static real_t verif_tab_at(c_tabid t, c_long i)\n{\n    switch (t) {')
             for g in reals:
                 out.append('    case TAB_%s: return %s(i);' % (g, g))
             out.append('    default: __CPROVER_assert(0, "table pointer refers to a known constant table"); { real_t verif_u; return verif_u; }')
-            out.append('    }\n}')
+            out.append('    }\n}\n#endif')
         for j, v in enumerate(self.strlits):
             lit = v.strip('"')
             nm = lit if re.fullmatch(r'[A-Za-z0-9_]+', lit) else 'X' + lit.encode().hex()
